@@ -984,7 +984,7 @@ func CalculateCursor(filt *object.SearchFilter, lastItem client.SearchResultItem
 			copy(res[off+intValLen:], lastItem.ID[:])
 			return res, nil
 		}
-	case object.FilterOwnerID, object.FilterFirstSplitObject, object.FilterParentID:
+	case object.FilterOwnerID, object.FilterFirstSplitObject, object.FilterParentID, object.AttributeAssociatedObject:
 		var err error
 		if val, err = base58.Decode(lastItemVal); err != nil {
 			return nil, fmt.Errorf("decode %q attribute value from Base58: %w", attr, err)
